@@ -104,8 +104,10 @@ impl File {
     pub(crate) fn synced_size(&self) -> u64 {
         self.inner.synced_size.load(Ordering::SeqCst)
     }
+    /// Bytes that a sync started now would newly cover. The range of an append that is still in flight does not count:
+    /// no sync can cover it yet, and the append looks at this value itself when it is done.
     pub(crate) fn dirty_bytes(&self) -> u64 {
-        self.size().saturating_sub(self.synced_size())
+        self.inner.written_size.load(Ordering::SeqCst).saturating_sub(self.synced_size())
     }
 
     pub(crate) async fn write_append_writable_data<R: Send + 'static>(
